@@ -42,6 +42,13 @@ one generator function `KeyedLock.__call__` plus single-threaded asyncio semanti
       orphan after exit.  A consumer the rule does not know (e.g. `wait_for`) is an analysis error,
       not a pass.  Planted positive and negative examples: fixtures/c25/detached_acquire.py.
 
+Reading through refactorings: the per-key lock may be held in locals — every origin of the `async with` operand (over all
+bindings of the locals involved) must be the `_locks` entry of the same key: `T[K]`, `T.get(K)`, `T.setdefault(K, X)`, or a new
+object that is itself stored as `T[K]`.  Bookkeeping moved into coroutine methods that `__call__` awaits directly is read as
+part of `__call__`: such helpers are folded into it (also when their name happens to occur in this file); a helper that cannot be
+folded is followed one level by R2/R3 and executed in place by the interpretation (the `await` of a coroutine of the same task is
+itself no suspension point; the suspension points inside it are injected as usual).
+
 Not decided: "every waiter eventually enters" — FIFO fairness and cancellation hand-over of
 `asyncio.Lock` are trusted, as is `contextlib.asynccontextmanager`.
 """
@@ -51,9 +58,10 @@ from __future__ import annotations
 import ast
 
 from ..absint import Interp, Raised, Record, Unsupported
-from ..astx import attr_reads, attr_writes, call_name, dotted, expand, is_suspension, last
+from ..astx import assigned_names, attr_reads, attr_writes, call_name, dotted, enclosing_stmt, expand, is_suspension, last, stmt_list_of
 from ..cfg import CFG, exprs_in_node
-from ..index import AnchorError, FuncNode, Module, _set_parents, enclosing_class, enclosing_function, parent, walk_shallow
+from ..index import AnchorError, FuncNode, Module, _baseline_helpers, _set_parents, enclosing_class, enclosing_function, parent, walk_shallow
+from ..inline import inline_module
 from ..report import VERIF
 from ..selftest import Twin
 
@@ -67,7 +75,9 @@ EXPLANATION = (
     "the acquisition. R4: no code outside KeyedLock touches _locks/_refs of a KeyedLock. R5: every lock acquisition is owned by the waiter's frame — "
     "`async with` or a directly awaited `.acquire()`; an acquire() coroutine handed to asyncio.shield / create_task / ensure_future / gather (or never "
     "awaited) can complete after the waiter was cancelled and is then released by nobody (waiters behind it hang, the key's state never clears); the "
-    "interpretation models such a detached acquisition and requires that no registered lock is left held by an orphan. Not decided: waiter liveness (asyncio.Lock fairness, trusted)."
+    "interpretation models such a detached acquisition and requires that no registered lock is left held by an orphan. The per-key lock may be held in a local "
+    "all of whose origins are the `_locks` entry of the key (T[K], T.get(K), T.setdefault(K, X), or a new lock stored as T[K]); bookkeeping in directly awaited "
+    "coroutine methods of the class is read as part of __call__ (folded, or followed one level and executed in place by the interpretation). Not decided: waiter liveness (asyncio.Lock fairness, trusted)."
 )
 TRUSTED = ["CPython ast", "asyncio.Lock semantics (mutual exclusion, FIFO wake-up, uncontended acquire does not suspend)", "contextlib.asynccontextmanager"]
 LEVEL_NOTE = (
@@ -79,6 +89,7 @@ TECHNIQUE = "static analysis: finite-domain AST interpretation with exception in
 MOD = "llama_agents.server._keyed_lock"
 CLS = "KeyedLock"
 TABLES = ("_locks", "_refs")
+MAIN_ACCESSOR = "_get_main_lock"
 
 
 # =============================================================================== shared helper
@@ -244,11 +255,26 @@ class OwnSim(Sim):
         self.orphans: list[tuple] = []
         self._direct: ast.AST | None = None
 
+    def _own_method(self, c: ast.AST, env) -> ast.AST | None:
+        """the coroutine method (AST) of an interpreted class that call ``c`` runs on a Record of that class"""
+        if not (isinstance(c, ast.Call) and isinstance(c.func, ast.Attribute) and isinstance(c.func.value, ast.Name)):
+            return None
+        obj = env.get(c.func.value.id)
+        if not isinstance(obj, Record) or c.func.attr in obj.__dict__:
+            return None
+        h = self.classes.get(obj._cls, {}).get(c.func.attr)
+        return h if isinstance(h, ast.AsyncFunctionDef) else None
+
     def e_Await(self, e, env):
         v = e.value
         if isinstance(v, ast.Call) and isinstance(v.func, ast.Attribute) and v.func.attr == "acquire":
             self._direct = v
             return self.eval(v, env)  # the waiter's own frame: one suspension point, counted by _enter
+        if self._own_method(v, env) is not None:
+            # `await self.helper(...)`: the coroutine runs in the waiter's own task; the await itself is no scheduling point,
+            # the suspension points are those of the helper's body (interpreted in place, with injection)
+            self._direct = v
+            return self.eval(v, env)
         val = self.eval(v, env)
         if isinstance(val, Record) and val._cls == "AcquireCoro":  # `c = lock.acquire(); await c` — still the waiter's own frame
             self._enter(val.lock)
@@ -269,6 +295,8 @@ class OwnSim(Sim):
 
     def e_Call(self, e, env):
         f = e.func
+        if e is not self._direct and self._own_method(e, env) is not None:
+            raise Unsupported(f"coroutine method `{ast.unparse(f)[:40]}(...)` called without a direct await")
         if isinstance(f, ast.Attribute) and f.attr == "acquire" and e is not self._direct:
             try:
                 obj = self.eval(f.value, env)
@@ -289,6 +317,16 @@ class OwnSim(Sim):
 # =============================================================================== anchors
 def _bind(repo):
     m, cls = repo.cls(f"{MOD}:{CLS}")
+    if getattr(repo, "_auto_words", None) is not None:
+        # The helper-inlined view keeps every private function whose name occurs anywhere in this file — which includes the
+        # interpreter's own method names.  The only helper of the keyed-lock module this check anchors on is the main-lock
+        # accessor (a private function of the confirmed tree), so every other private helper is folded here as well.
+        keep = set(_baseline_helpers().get(m.rel, ())) | {MAIN_ACCESSOR}
+        folded, n = inline_module(m, keep)
+        if n:
+            folded.tree._mod = folded
+            m = folded
+            cls = next((c for c in folded.tree.body if isinstance(c, ast.ClassDef) and c.name == CLS), cls)
     fn = next((n for n in cls.body if isinstance(n, FuncNode) and n.name == "__call__"), None)
     if fn is None:
         raise AnchorError(f"`{CLS}.__call__` not found in {m.rel}")
@@ -306,17 +344,164 @@ def _is_table_subscript(e: ast.AST, table: str | None = None) -> bool:
     )
 
 
-def _with_kind(w: ast.AST, selfname: str, key: str) -> str:
-    """'perkey' for `async with self._locks[key]` (possibly through an extracted local), else 'main'."""
+def _own_coroutine(c: ast.AST, g: ast.AST, cls: ast.ClassDef | None) -> ast.AST | None:
+    """The undecorated coroutine method of ``cls`` that the call ``c`` (made in method ``g``) runs on the same instance."""
+    if cls is None or not (isinstance(c, ast.Call) and isinstance(c.func, ast.Attribute) and isinstance(c.func.value, ast.Name)):
+        return None
+    recv = [a.arg for a in g.args.posonlyargs + g.args.args][:1]
+    if recv != [c.func.value.id]:
+        return None
+    h = next((n for n in cls.body if isinstance(n, ast.AsyncFunctionDef) and n.name == c.func.attr), None)
+    return h if h is not None and not h.decorator_list and h is not g else None
+
+
+def _call_binding(c: ast.Call, h: ast.AST) -> dict[str, ast.AST] | None:
+    """parameter name of method ``h`` -> argument expression of the call ``c`` (receiver dropped); None when not positional/keyword plain."""
+    if any(isinstance(a, ast.Starred) for a in c.args) or any(k.arg is None for k in c.keywords) or h.args.vararg or h.args.kwarg:
+        return None
+    names = [a.arg for a in h.args.posonlyargs + h.args.args][1:]
+    if len(c.args) > len(names):
+        return None
+    bind = dict(zip(names, c.args))
+    bind.update({k.arg: k.value for k in c.keywords})
+    return bind
+
+
+def _bindings_of(g: ast.AST, name: str) -> list[tuple[ast.AST, ast.AST | None]]:
+    """Every binding of the local ``name`` in function ``g`` as (statement, value expression); the value is None when the
+    binding does not give the name the value of one expression (parameter, unpacking, loop / with / except target, ``+=``)."""
+    out: list[tuple[ast.AST, ast.AST | None]] = []
+    if any(a.arg == name for a in ast.walk(g.args) if isinstance(a, ast.arg)):
+        out.append((g, None))
+    for n in walk_shallow(g):
+        if not (isinstance(n, ast.Name) and n.id == name and isinstance(n.ctx, (ast.Store, ast.Del))):
+            continue
+        p = parent(n)
+        if isinstance(p, ast.Assign) and n in p.targets:
+            out.append((p, p.value))
+        elif isinstance(p, ast.AnnAssign) and p.target is n and p.value is not None:
+            out.append((p, p.value))
+        elif isinstance(p, ast.NamedExpr) and p.target is n:
+            out.append((enclosing_stmt(p), p.value))
+        elif isinstance(p, ast.AnnAssign) and p.target is n:
+            continue  # bare annotation binds nothing
+        else:
+            out.append((enclosing_stmt(n) or g, None))
+    return out
+
+
+def _registered_under(stmt: ast.AST, name: str) -> list[ast.AST] | None:
+    """``name`` was just bound by ``stmt`` to a value that is not a table entry (a new lock).  The slice K when that very
+    value is what gets stored as the table entry of K: ``T[K] = name = X`` in one statement, or ``T[K] = name`` among the
+    simple statements that follow in the same block before ``name`` is bound again."""
+    if isinstance(stmt, ast.Assign):
+        hit = [t.slice for t in stmt.targets if _is_table_subscript(t, "_locks")]
+        if hit:
+            return hit
+    loc = stmt_list_of(stmt) if isinstance(stmt, ast.stmt) else None
+    if loc is None:
+        return None
+    lst, i = loc
+    for s in lst[i + 1:]:
+        if not isinstance(s, (ast.Assign, ast.AnnAssign, ast.AugAssign, ast.Expr)):
+            return None
+        if isinstance(s, ast.Assign) and isinstance(s.value, ast.Name) and s.value.id == name:
+            hit = [t.slice for t in s.targets if _is_table_subscript(t, "_locks")]
+            if hit:
+                return hit
+        if name in assigned_names(s):
+            return None
+    return None
+
+
+def _entry_slices(e: ast.AST, g: ast.AST, cls: ast.ClassDef | None, depth: int = 1, seen: frozenset = frozenset()) -> list[ast.AST] | None:
+    """Dependence of a lock expression on the `_locks` table: the slices K such that the value of ``e`` (evaluated in method
+    ``g``) is the table entry of K, over *every* binding of the locals involved (flow-insensitive); None as soon as one
+    origin is something else.  Origins understood: ``T[K]``, ``T.get(K)`` (the entry, or None which is no lock),
+    ``T.setdefault(K, X)``, a new value that is itself stored as ``T[K]``, a conditional expression of such, and the value
+    returned by a directly awaited coroutine method of the same class (one level; K translated through the call)."""
+    if _is_table_subscript(e, "_locks"):
+        return [e.slice]
+    if isinstance(e, ast.Call) and isinstance(e.func, ast.Attribute) and isinstance(e.func.value, ast.Attribute) and e.func.value.attr == "_locks" and not e.keywords:
+        if e.func.attr == "setdefault" and len(e.args) == 2:
+            return [e.args[0]]
+        if e.func.attr == "get" and (len(e.args) == 1 or (len(e.args) == 2 and isinstance(e.args[1], ast.Constant) and e.args[1].value is None)):
+            return [e.args[0]]
+        return None
+    if isinstance(e, ast.IfExp):
+        a, b = _entry_slices(e.body, g, cls, depth, seen), _entry_slices(e.orelse, g, cls, depth, seen)
+        return None if a is None or b is None else a + b
+    if isinstance(e, ast.BoolOp) and isinstance(e.op, ast.Or):  # `T.get(K) or <other origin>`
+        parts = [_entry_slices(v, g, cls, depth, seen) for v in e.values]
+        return None if any(x is None for x in parts) else [k for x in parts for k in x]
+    if isinstance(e, ast.NamedExpr):
+        return _entry_slices(e.value, g, cls, depth, seen)
+    if isinstance(e, ast.Name):
+        if (id(g), e.id) in seen:
+            return []
+        binds = _bindings_of(g, e.id)
+        if not binds:
+            return None
+        out: list[ast.AST] = []
+        for stmt, val in binds:
+            got = None if val is None else _entry_slices(val, g, cls, depth, seen | {(id(g), e.id)})
+            if got is None and val is not None and not isinstance(val, (ast.Name, ast.Await)):
+                got = _registered_under(stmt, e.id)
+            if got is None:
+                return None
+            out += got
+        return out
+    if isinstance(e, ast.Await) and depth > 0:
+        h = _own_coroutine(e.value, g, cls)
+        bind = _call_binding(e.value, h) if h is not None else None
+        rets = [n for n in walk_shallow(h) if isinstance(n, ast.Return)] if h is not None else []
+        if bind is None or not rets:
+            return None
+        out = []
+        for r in rets:
+            got = None if r.value is None else _entry_slices(r.value, h, cls, depth - 1, seen)
+            if got is None:
+                return None
+            for k in got:  # the key of the helper is a parameter of it: say it in the caller's terms
+                if not (isinstance(k, ast.Name) and k.id in bind and not _reassigned(h, k.id)):
+                    return None
+                out.append(bind[k.id])
+        return out
+    return None
+
+
+def _lock_expr(e: ast.AST, at: ast.AST, g: ast.AST, cls: ast.ClassDef | None) -> ast.AST:
+    """The lock expression ``e`` with straight-line locals substituted; when it is a local (or the result of an awaited
+    helper of the class) every origin of which is the `_locks` entry of one and the same K, the canonical ``<self>._locks[K]``."""
+    x = expand(e, at)
+    if _is_table_subscript(x, "_locks"):
+        return x
+    ks = _entry_slices(e, g, cls)
+    if ks and len({ast.dump(k) for k in ks}) == 1:
+        recv = ([a.arg for a in g.args.posonlyargs + g.args.args] or ["self"])[0]
+        return ast.Subscript(value=ast.Attribute(value=ast.Name(id=recv, ctx=ast.Load()), attr="_locks", ctx=ast.Load()), slice=ks[0], ctx=ast.Load())
+    return x
+
+
+def _with_kind(w: ast.AST, g: ast.AST, cls: ast.ClassDef | None) -> str:
+    """'perkey' for `async with self._locks[key]` (possibly through locals that can only hold that entry), else 'main'."""
     kinds = []
     for it in w.items:
-        e = expand(it.context_expr, w)
+        e = _lock_expr(it.context_expr, w, g, cls)
         kinds.append("perkey" if _is_table_subscript(e, "_locks") else "other")
     return "perkey" if "perkey" in kinds else "main"
 
 
-def _touches_tables(node: ast.AST) -> bool:
-    return any(isinstance(x, ast.Attribute) and x.attr in TABLES for x in ast.walk(node))
+def _touches_tables(node: ast.AST, cls: ast.ClassDef | None = None) -> bool:
+    """``node`` reads or writes `_locks` / `_refs` — itself, or (with ``cls``) through a method of the class it calls on an
+    instance held in a plain name (one level: `await self._drop(key)` in a `finally` is the deregistration)."""
+    if any(isinstance(x, ast.Attribute) and x.attr in TABLES for x in ast.walk(node)):
+        return True
+    if cls is None:
+        return False
+    methods = {n.name: n for n in cls.body if isinstance(n, FuncNode)}
+    return any(isinstance(c, ast.Call) and isinstance(c.func, ast.Attribute) and isinstance(c.func.value, ast.Name) and c.func.attr in methods
+               and _touches_tables(methods[c.func.attr]) for c in ast.walk(node))
 
 
 # =============================================================================== acquisition sites (R5)
@@ -380,10 +565,10 @@ def _acq_sites(cls: ast.ClassDef, entry: ast.AST) -> list[Acq]:
         for n in walk_shallow(g):
             if isinstance(n, ast.AsyncWith):
                 for it in n.items:
-                    mine.append(Acq(n, expand(it.context_expr, n), "async-with", "async with", g))
+                    mine.append(Acq(n, _lock_expr(it.context_expr, n, g, cls), "async-with", "async with", g))
             elif isinstance(n, ast.Attribute) and n.attr in ("acquire", "__aenter__"):
                 c = parent(n)
-                lock = expand(n.value, n)
+                lock = _lock_expr(n.value, n, g, cls)
                 if isinstance(c, ast.Call) and c.func is n:
                     form, how = _consumer(c, g)
                     mine.append(Acq(c, lock, form, how, g))
@@ -413,7 +598,7 @@ def run(chk) -> None:
     cfg = CFG(fn)
 
     withs = [n for n in walk_shallow(fn) if isinstance(n, (ast.AsyncWith, ast.With))]
-    perkey = [w for w in withs if _with_kind(w, selfname, key) == "perkey"]
+    perkey = [w for w in withs if _with_kind(w, fn, cls) == "perkey"]
     mains = [w for w in withs if w not in perkey]
     yields = [n for n in walk_shallow(fn) if isinstance(n, (ast.Yield, ast.YieldFrom))]
     if not yields:
@@ -434,11 +619,39 @@ def run(chk) -> None:
         chk.ob("C25.R2", "bookkeeping section under the main lock contains no suspension point (so the main lock is never held across one and its acquisition never waits)",
                ok, m=m, node=w, fn=fn, instance=f"main-section:{'prologue' if not _after_yield(fn, w) else 'epilogue'}",
                reason=f"suspension point inside the section: `{ast.unparse(susp[0])[:60]}` (line {getattr(susp[0], 'lineno', '?')})" if susp else "")
-    chk.floor("C25.R2", "bookkeeping sections (`async with` other than the per-key lock)", len(mains), 0)
+    # coroutine methods of the class that `__call__` awaits directly and that are still there (the helper inliner could not fold
+    # them): their bookkeeping sections are sections of `__call__` (a directly awaited coroutine adds no scheduling point)
+    helpers: dict[int, tuple[ast.AST, ast.AST]] = {}
+    for aw in [n for n in walk_shallow(fn) if isinstance(n, ast.Await)]:
+        h = _own_coroutine(aw.value, fn, cls)
+        if h is not None and _touches_tables(h):
+            helpers[id(aw)] = (aw, h)
+    helper_sections: dict[int, list[ast.AST]] = {}
+    for aw, h in helpers.values():
+        hm = [w for w in walk_shallow(h) if isinstance(w, (ast.AsyncWith, ast.With)) and _with_kind(w, h, cls) != "perkey"]
+        helper_sections[id(h)] = hm
+        for w in hm:
+            susp = [x for s_ in w.body for x in [s_, *walk_shallow(s_)] if is_suspension(x)]
+            r2_ok &= not susp
+            chk.ob("C25.R2", "bookkeeping section under the main lock contains no suspension point (so the main lock is never held across one and its acquisition never waits)",
+                   not susp, m=m, node=w, fn=h, instance=f"main-section:{'prologue' if not _after_yield(fn, aw) else 'epilogue'}",
+                   reason=f"suspension point inside the section: `{ast.unparse(susp[0])[:60]}` (line {getattr(susp[0], 'lineno', '?')})" if susp else "")
+    chk.floor("C25.R2", "bookkeeping sections (`async with` other than the per-key lock)", len(mains) + sum(len(v) for v in helper_sections.values()), 0)
+
+    def helper_waits(h: ast.AST) -> bool:
+        """the helper has a suspension point other than the acquisition of a suspension-free bookkeeping section"""
+        return any(is_suspension(x) and not (r2_ok and any(x is w for w in helper_sections[id(h)])) for x in walk_shallow(h))
+
+    for aw, h in helpers.values():
+        loose = [x for x in walk_shallow(h) if isinstance(x, ast.Attribute) and x.attr in TABLES
+                 and not any(a is w for a in _ancestors_until(x, h) for w in helper_sections[id(h)])]
+        if loose and helper_waits(h):
+            raise AnchorError(f"C25.R2: the coroutine `{h.name}` awaited by `__call__` accesses `{ast.unparse(loose[0])[:40]}` outside a bookkeeping section and has a "
+                              "suspension point of its own; the check-then-act analysis does not read through a helper that could not be folded into `__call__`")
 
     # no suspension between two table accesses outside the critical section (check-then-act windows)
     touch = [n for n in cfg.nodes if n.ast is not None and n.kind in ("stmt", "test", "with", "iter") and any(
-        isinstance(x, ast.Attribute) and x.attr in TABLES for x in exprs_in_node(n))]
+        (isinstance(x, ast.Attribute) and x.attr in TABLES) or id(x) in helpers for x in exprs_in_node(n))]
     main_hdr = {id(w) for w in mains}
     perkey_hdr = {id(w) for w in perkey}
 
@@ -449,7 +662,9 @@ def run(chk) -> None:
             if id(n.ast) in main_hdr:
                 return not r2_ok  # never waits when every section is suspension-free
             return isinstance(n.ast, ast.AsyncWith)
-        return any(isinstance(x, (ast.Await, ast.Yield, ast.YieldFrom)) for x in exprs_in_node(n))
+        pts = [x for x in exprs_in_node(n) if isinstance(x, (ast.Await, ast.Yield, ast.YieldFrom))]
+        # `await self.<helper>(...)` suspends exactly when the helper's body does
+        return any(helper_waits(helpers[id(x)][1]) if id(x) in helpers else True for x in pts)
 
     susp_nodes = [n for n in cfg.nodes if suspends(n)]
     crit = set()  # nodes of the critical section: the per-key acquisition and the yield — the legitimate suspension
@@ -479,11 +694,11 @@ def run(chk) -> None:
         chk.ob("C25.R3", "the yield (caller's critical section) executes inside `async with self._locks[key]`", bool(inside), m=m, node=y, fn=fn,
                instance="yield-under-per-key-lock", reason="yield is not lexically inside the per-key lock acquisition")
     chk.floor("C25.R3", "yield sites", len(yields), 1)
-    for w, e in [(w, expand(w.items[0].context_expr, w)) for w in perkey] + [(a.node, a.lock) for a in manual]:
+    for w, e in [(w, _perkey_item(w, fn, cls)) for w in perkey] + [(a.node, a.lock) for a in manual]:
         keyed = _is_table_subscript(e, "_locks") and isinstance(e.slice, ast.Name) and e.slice.id == key and not _reassigned(fn, key)
         chk.ob("C25.R3", f"the per-key lock is looked up with the key parameter `{key}` (different keys use different locks)", keyed, m=m, node=w, fn=fn,
                instance="per-key-lookup", reason=f"lock expression `{ast.unparse(e)[:60]}` is not `{selfname}._locks[{key}]` with an unmodified key")
-        has_fin = any(isinstance(a, ast.Try) and any(x is w or w in list(ast.walk(x)) for x in a.body) and any(_touches_tables(s) for s in a.finalbody)
+        has_fin = any(isinstance(a, ast.Try) and any(x is w or w in list(ast.walk(x)) for x in a.body) and any(_touches_tables(s, cls) for s in a.finalbody)
                       for a in _ancestors_until(w, fn))
         chk.ob("C25.R3", "the per-key acquisition lies in the `try` whose `finally` deregisters (cleanup runs on every exit, incl. cancellation while waiting)", has_fin,
                m=m, node=w, fn=fn, instance="acquire-in-try-finally", reason="no enclosing try with a finally that updates _locks/_refs")
@@ -502,6 +717,8 @@ def run(chk) -> None:
             if isinstance(c, ast.Call) and len(c.args) >= 2:
                 factories.append(c.args[1])
     chk.floor("C25.R3", "per-key lock constructions", len(factories), 1)
+    factories = [v for f in factories for v in _new_values(f, cls)]
+    chk.floor("C25.R3", "per-key lock constructions (through locals)", len(factories), 1)
     for f in factories:
         ok = isinstance(f, ast.Call) and call_name(f) in ("asyncio.Lock", "Lock") and not f.args and not f.keywords
         chk.ob("C25.R3", "per-key locks are `asyncio.Lock()` objects (mutual exclusion of the holder is asyncio's)", ok, m=m, node=f, fn=enclosing_function(f),
@@ -511,7 +728,7 @@ def run(chk) -> None:
            instance="asynccontextmanager", reason=f"decorators: {deco}")
 
     # ------------------------------------------------------------------ R1 / R2 / R3 semantic: exhaustive interpretation
-    _simulate(chk, m, fn, selfname, key, inject_main=not r2_ok)
+    _simulate(chk, m, fn, selfname, key, inject_main=not r2_ok, cls=cls)
 
     # ------------------------------------------------------------------ R4 ownership
     _ownership(chk, repo)
@@ -579,6 +796,22 @@ def _planted_acquisitions(chk) -> None:
     chk.floor("C25.R5", "planted owned acquisitions (direct await, via awaited helper, async with) left alone by both procedures", n_owned, 3)
 
 
+def _new_values(f: ast.AST, cls: ast.ClassDef) -> list[ast.AST]:
+    """The expressions that create the object stored by `_locks[K] = f`: ``f`` itself, or — when ``f`` is a local — the value
+    of every binding of that local that is not already an entry of the table (`v = T.get(K)` re-stores, it creates nothing)."""
+    g = enclosing_function(f)
+    if isinstance(f, ast.Name) and g is not None:
+        vals = [v for _, v in _bindings_of(g, f.id)]
+        if vals and all(v is not None for v in vals):
+            return [v for v in vals if _entry_slices(v, g, cls, 0, frozenset({(id(g), f.id)})) is None]
+    return [f]
+
+
+def _perkey_item(w: ast.AST, g: ast.AST, cls: ast.ClassDef | None) -> ast.AST:
+    es = [_lock_expr(it.context_expr, w, g, cls) for it in w.items]
+    return next((e for e in es if _is_table_subscript(e, "_locks")), es[0])
+
+
 def _after_yield(fn: ast.AST, node: ast.AST) -> bool:
     ys = [n.lineno for n in walk_shallow(fn) if isinstance(n, (ast.Yield, ast.YieldFrom))]
     return bool(ys) and node.lineno > min(ys)
@@ -612,12 +845,12 @@ def _mk_state(kind: str):
     return locks, refs, mine, other
 
 
-def _interpret(fn: ast.AST, selfname: str, key: str, inject_main: bool) -> tuple[int, dict[str, str], list]:
+def _interpret(fn: ast.AST, selfname: str, key: str, inject_main: bool, cls: ast.ClassDef | None = None) -> tuple[int, dict[str, str], list]:
     """Interpret ``fn`` on every (initial state, injection point); returns (cases, {"<rule>|<slot>": first failure}, samples).
     Raises Unsupported for a construct outside the interpreter's model."""
     main_lock = Record("Lock", name="main-lock")
     hooks = {
-        f"{selfname}._get_main_lock": lambda: main_lock,
+        f"{selfname}.{MAIN_ACCESSOR}": lambda: main_lock,
         "asyncio.Lock": lambda: Record("Lock", name="new-lock"),
         "Lock": lambda: Record("Lock", name="new-lock"),
         "asyncio.sleep": lambda *a: None,
@@ -648,6 +881,8 @@ def _interpret(fn: ast.AST, selfname: str, key: str, inject_main: bool) -> tuple
 
             sim = OwnSim({}, hooks, inject_at=inj, on_yield=on_yield,
                       may_wait=(lambda obj: True) if inject_main else (lambda obj: obj is not main_lock))
+            if cls is not None:  # `await self.<helper>(...)` is interpreted through (methods of the class, on this Record)
+                sim.classes = {"KeyedLock": {n.name: n for n in cls.body if isinstance(n, FuncNode) and n is not fn}}
             left_by = run_generator(fn, sim, {selfname: me, key: "k"})
             cases += 1
             where = f"initial state `{kind}`, " + (f"exception injected at {sim.points[inj]}" if inj is not None and inj < len(sim.points) else "no exception")
@@ -706,9 +941,9 @@ def _interpret(fn: ast.AST, selfname: str, key: str, inject_main: bool) -> tuple
     return cases, bad, samples
 
 
-def _simulate(chk, m: Module, fn: ast.AST, selfname: str, key: str, inject_main: bool) -> None:
+def _simulate(chk, m: Module, fn: ast.AST, selfname: str, key: str, inject_main: bool, cls: ast.ClassDef | None = None) -> None:
     try:
-        cases, bad, samples = _interpret(fn, selfname, key, inject_main)
+        cases, bad, samples = _interpret(fn, selfname, key, inject_main, cls)
     except Unsupported as e:
         if any(o.rule == "C25.R5" and not o.ok for o in chk.obligations):
             # an acquisition that is not owned by the frame is already established structurally; the interpretation could only
@@ -810,7 +1045,55 @@ def _ownership(chk, repo) -> None:
 
 # =============================================================================== twins
 _P = "packages/llama-agents-server/src/llama_agents/server/_keyed_lock.py"
+# the two bookkeeping sections moved into directly awaited coroutine methods; the first returns the per-key lock, which is then
+# used through a local instead of re-reading the table (get-or-create through a local, decrement through a local)
+_INLINE_BODY = (
+    "        async with self._get_main_lock():\n            if key not in self._locks:\n                self._locks[key] = asyncio.Lock()\n"
+    "                self._refs[key] = 0\n            self._refs[key] += 1\n\n        try:\n            async with self._locks[key]:\n                yield\n"
+    "        finally:\n            # Deregister and cleanup if last.\n            # No await between these lines = atomic in asyncio.\n"
+    "            async with self._get_main_lock():\n                self._refs[key] -= 1\n                if self._refs[key] == 0:\n"
+    "                    del self._locks[key]\n                    del self._refs[key]\n"
+)
+_H_CALL = "        held = await self._join(key)\n        try:\n            async with held:\n                yield\n        finally:\n            await self._leave(key)\n\n"
+_H_JOIN = (
+    "    async def _join(self, key: str) -> asyncio.Lock:\n        async with self._get_main_lock():\n            held = self._locks.get(key)\n"
+    "            if held is None:\n                held = asyncio.Lock()\n                self._locks[key] = held\n                self._refs[key] = 0\n"
+    "            self._refs[key] += 1\n        return held\n\n"
+)
+_H_LEAVE = (
+    "    async def _leave(self, key: str) -> None:\n        async with self._get_main_lock():\n            left = self._refs[key] - 1\n"
+    "            if left == 0:\n                del self._locks[key]\n                del self._refs[key]\n            else:\n                self._refs[key] = left\n"
+)
+
+
+def _helper_form(*edits: tuple[str, str]) -> str:
+    out = _H_CALL + _H_JOIN + _H_LEAVE
+    for a, b in edits:
+        assert a in out, a
+        out = out.replace(a, b, 1)
+    return out
+
+
 TWINS = [
+    # ---- bookkeeping sections extracted into directly awaited coroutine methods (read through: folded by the helper inliner, or —
+    #      where it cannot fold them — followed one level by the rules and executed in place by the interpretation)
+    Twin("benign: sections extracted into awaited coroutines, per-key lock returned and used through a local", _P, _INLINE_BODY, _helper_form(), None),
+    Twin("benign: as before, the registering coroutine awaited in the `async with` header", _P, _INLINE_BODY,
+         _helper_form(("        held = await self._join(key)\n        try:\n            async with held:", "        try:\n            async with await self._join(key):")), None),
+    Twin("benign: get-or-create through a local in place (no helper)", _P,
+         "            if key not in self._locks:\n                self._locks[key] = asyncio.Lock()\n                self._refs[key] = 0\n            self._refs[key] += 1\n\n        try:\n            async with self._locks[key]:",
+         "            held = self._locks.get(key)\n            if held is None:\n                held = asyncio.Lock()\n                self._locks[key] = held\n                self._refs[key] = 0\n            self._refs[key] += 1\n\n        try:\n            async with held:", None),
+    Twin("extracted form: decrement computed in a local and never written back while others remain", _P, _INLINE_BODY,
+         _helper_form(("            else:\n                self._refs[key] = left\n", "")), "C25.R1"),
+    Twin("extracted form: suspension between the awaited registration and the try", _P, _INLINE_BODY,
+         _helper_form(("        held = await self._join(key)\n", "        held = await self._join(key)\n        await asyncio.sleep(0)\n")), "C25.R1"),
+    Twin("extracted form: await inside the bookkeeping section of the registering coroutine", _P, _INLINE_BODY,
+         _helper_form(("            self._refs[key] += 1\n        return held", "            await asyncio.sleep(0)\n            self._refs[key] += 1\n        return held")), "C25.R2"),
+    Twin("extracted form: the returned lock is a new object, a different one is registered", _P, _INLINE_BODY,
+         _helper_form(("                self._locks[key] = held\n", "                self._locks[key] = asyncio.Lock()\n")), "C25.R3"),
+    Twin("extracted form: every key registers and takes the lock of one shared slot", _P, _INLINE_BODY,
+         _helper_form(("held = self._locks.get(key)", "held = self._locks.get('shared')"), ("self._locks[key] = held", "self._locks['shared'] = held")), "C25.R3"),
+    Twin("extracted form: the local lock is a Semaphore(2)", _P, _INLINE_BODY, _helper_form(("held = asyncio.Lock()", "held = asyncio.Semaphore(2)")), "C25.R3"),
     # ---- R1 breaking
     Twin("count starts at one (never reaches zero: entries leak)", _P, "self._refs[key] = 0", "self._refs[key] = 1", "C25.R1"),
     Twin("entry deleted while one other waiter is still registered", _P, "if self._refs[key] == 0:", "if self._refs[key] <= 1:", "C25.R1"),
